@@ -97,8 +97,8 @@ PROPS = {
     'C09': {
         'native': ['c09_'],
         'units': ['chain', 'driver'],
-        'kani_quick': ['utils_merkle_root_1_to_3'],
-        'kani_thorough': ['utils_merkle_root_4_5'],
+        'kani_quick': [],
+        'kani_thorough': ['utils_merkle_root_1_to_3', 'utils_merkle_root_4_5'],
         'trusted': [
             'Block::compute_merkle_root == merkle_spec(txids in block order) -- iterator adapters, outside Verus; utils::merkle_root is checked by bounded Kani harnesses (lane K), never counted as proved',
             'SHA-256d collision resistance (soundness clause "any bit flip fails") is a cryptographic assumption, not a contract',
@@ -144,7 +144,7 @@ PROPS = {
     'C14': {
         'native': ['c05_', 'c06_', 'c14_'],
         'units': ['script_btc', 'script_custom', 'reader'],
-        'kani_quick': ['btc_is_provable_unspendable_first_byte', 'opcode_class_table', 'custom_read_uint_1', 'custom_read_uint_2', 'custom_read_uint_4'],
+        'kani_quick': ['btc_is_provable_unspendable_first_byte'],
         'kani_thorough': [],
         'explanation': 'C14 reports the SAFETY obligations (arithmetic overflow, division by zero, slice index, unwrap/expect/unreachable/panic reachability) of every function on the script-evaluation and transaction-parsing path, plus the clauses tagged C14 (evaluation never yields ScriptPattern::Error; scriptSig/witness bytes are length-delimited and never interpreted).',
         'trusted': [
